@@ -1381,6 +1381,8 @@ class Worker(actor.RallyActor):
                     self.worker_id,
                     self.current_task_index,
                 )
+                # nothing is running and hence nobody would wake us up again: move on until we reach the next join point
+                self.drive()
             else:
                 self.logger.debug("Worker[%d] is executing tasks at index [%d].", self.worker_id, self.current_task_index)
                 self.sampler = Sampler(start_timestamp=time.perf_counter(), buffer_size=self.sample_queue_size)
